@@ -73,28 +73,28 @@ begin
   op_rem_2 <= buffer_op_rem_2;
   
   -- CONCURRENT BLOCK (logic_simple)
-  temp <= (input) + (4);
+  temp <= (input) + (-8);
   buffer_op_add <= temp;
-  temp1 <= (input) - (4);
+  temp1 <= (input) - (-8);
   buffer_op_sub <= temp1;
-  temp2 <= (input) * (4);
+  temp2 <= (input) * (-8);
   buffer_op_mul <= temp2;
-  temp3 <= (input) / (4);
+  temp3 <= (input) / (-8);
   buffer_op_div <= temp3;
-  temp4 <= (input) mod (4);
+  temp4 <= (input) mod (-8);
   buffer_op_mod <= temp4;
-  temp5 <= (input) rem (4);
+  temp5 <= (input) rem (-8);
   buffer_op_rem <= temp5;
-  temp6 <= (4) + (input);
+  temp6 <= (-8) + (input);
   buffer_op_add_2 <= temp6;
-  temp7 <= (4) - (input);
+  temp7 <= (-8) - (input);
   buffer_op_sub_2 <= temp7;
-  temp8 <= (4) * (input);
+  temp8 <= (-8) * (input);
   buffer_op_mul_2 <= temp8;
-  temp9 <= (4) / (input_div);
+  temp9 <= (-8) / (input_div);
   buffer_op_div_2 <= temp9;
-  temp10 <= (4) mod (input_div);
+  temp10 <= (-8) mod (input_div);
   buffer_op_mod_2 <= temp10;
-  temp11 <= (4) rem (input_div);
+  temp11 <= (-8) rem (input_div);
   buffer_op_rem_2 <= temp11;
 end architecture arch_test_operations_const;
